@@ -8,7 +8,7 @@ use palette::encoding::{self, Linear};
 use palette::lms::matrix::{Bradford, UnitMatrix, VonKries};
 use palette::rgb::{Rgb, RgbSpace, RgbStandard};
 use palette::white_point::*;
-use palette::{Hsl, Hsluv, Hsv, Hwb, Lab, Lch, Lchuv, Luv, Okhsl, Okhsv, Okhwb, Oklab, Oklch, Xyz};
+use palette::{Hsl, Hsluv, Hsv, Hwb, Lab, Lch, Lchuv, Luv, Okhsl, Okhsv, Okhwb, Oklab, Oklch, Xyz, Yxy};
 
 macro_rules! for_pairs {
     ($mac:ident; $args:tt; [$($a:ident),*]; $bs:tt) => { $( for_pairs!(@inner $mac; $args; $a; $bs); )* };
@@ -17,44 +17,54 @@ macro_rules! for_pairs {
 
 fn wp_xyz<W: WhitePoint<f64>>() -> [f64; 3] { into_array(W::get_xyz()) }
 
-fn adapt_one<T: Fl, I, O, M>(out: &mut Out, rng: &mut Rng, iname: &str, oname: &str, mname: &str)
-where T: palette::num::Zero + palette::num::Arithmetics + Clone + palette::num::Real,
-      I: WhitePoint<T> + WhitePoint<f64> + palette::xyz::meta::HasXyzMeta<XyzMeta = I>, O: WhitePoint<T> + WhitePoint<f64> + palette::xyz::meta::HasXyzMeta<XyzMeta = O>,
-      M: palette::lms::matrix::XyzToLms<T> + palette::lms::matrix::LmsToXyz<T>,
-      Xyz<I, T>: palette::convert::IntoColorUnclamped<palette::lms::Lms<palette::lms::matrix::WithLmsMatrix<I, M>, T>> + palette::cast::ArrayCast<Array = [T; 3]>,
-      Xyz<O, T>: palette::convert::IntoColorUnclamped<palette::lms::Lms<palette::lms::matrix::WithLmsMatrix<O, M>, T>> + palette::cast::ArrayCast<Array = [T; 3]>,
-{
-    let fwd = adaptation_matrix::<T, I, O, M>(None, None);
-    let back = adaptation_matrix::<T, O, I, M>(None, None);
+// one small non-generic function per (component type, white point pair, cone matrix): concrete types, so that the library's own trait
+// bounds decide what compiles, and separate functions, so that the optimiser is not handed one 1350-fold inlined body
+macro_rules! adapt_one { ($t:ty, $i:ty, $o:ty, $m:ty, $out:expr, $rng:expr, $iname:expr, $oname:expr, $mname:expr) => {{
+    #[inline(never)] fn one(out: &mut Out, rng: &mut Rng, iname: &str, oname: &str, mname: &str) {
+    let fwd = adaptation_matrix::<$t, $i, $o, $m>(None, None);
+    let back = adaptation_matrix::<$t, $o, $i, $m>(None, None);
     let arr = fwd.into_array();
     out.case(&format!("adapt {} {} {} | | {}", iname, oname, mname, hx_list(&arr)));
-    let (wi, wo) = (wp_xyz::<I>(), wp_xyz::<O>());
+    let (wi, wo) = (wp_xyz::<$i>(), wp_xyz::<$o>());
     // the source white point lands on the destination white point.  The cone matrix pairs are 7-digit tables (inverse to 1e-7, decided in
     // C14_White.lean: adaptation error <= 7e-8 in exact arithmetic), f32 adds ~8 eps of values <= 2: 2e-7 / 4e-6.
-    let tol = if T::TAG == "f32" { 4e-6 } else { 2e-7 };
-    let wi_t: [T; 3] = arr_of(wi);
-    let mapped: [T; 3] = into_array(fwd.convert(from_array::<Xyz<I, T>>(wi_t)));
+    let tol = if <$t as Fl>::TAG == "f32" { 4e-6 } else { 2e-7 };
+    let wi_t: [$t; 3] = arr_of(wi);
+    let mapped: [$t; 3] = into_array(fwd.convert(from_array::<Xyz<$i, $t>>(wi_t)));
     let e = (0..3).map(|k| (mapped[k].to64() - wo[k]).abs()).fold(0.0, f64::max);
-    out.maxi(&format!("adapt-white-err:{}", T::TAG), e);
-    out.check(e <= tol, &format!("adapt-white:{}:{}", mname, T::TAG), || format!("{} -> {}: white {:?} maps to {:?}, want {:?}", iname, oname, wi, mapped, wo));
+    out.maxi(&format!("adapt-white-err:{}", <$t as Fl>::TAG), e);
+    out.check(e <= tol, &format!("adapt-white:{}:{}", mname, <$t as Fl>::TAG), || format!("{} -> {}: white {:?} maps to {:?}, want {:?}", iname, oname, wi, mapped, wo));
+    // dynamic white points: the same STATIC type on both sides, the white points passed as values (the documented white-balance form);
+    // the matrix must be the one of the corresponding static pair, in particular it maps the source white onto the destination white
+    {
+        let wi_t: [$t; 3] = arr_of(wp_xyz::<$i>()); let wo_t: [$t; 3] = arr_of(wp_xyz::<$o>());
+        let dynm = adaptation_matrix::<$t, palette::white_point::D65, palette::white_point::D65, $m>(Some(from_array::<Xyz<palette::white_point::D65, $t>>(wi_t)), Some(from_array::<Xyz<palette::white_point::D65, $t>>(wo_t)));
+        let mapped: [$t; 3] = into_array(dynm.convert(from_array::<Xyz<palette::white_point::D65, $t>>(wi_t)));
+        let e = (0..3).map(|k| (mapped[k].to64() - wo_t[k].to64()).abs()).fold(0.0, f64::max);
+        out.check(e <= tol, &format!("adapt-white-dynamic:{}:{}", mname, <$t as Fl>::TAG), || format!("adaptation_matrix::<D65, D65>(Some({}), Some({})): white {:?} maps to {:?}, want {:?}", iname, oname, wi_t, mapped, wo_t));
+        let (da, sa) = (dynm.into_array(), arr);
+        out.check(da.iter().zip(sa.iter()).all(|(p, q)| p.to64().to_bits() == q.to64().to_bits() || (p.to64() - q.to64()).abs() <= 4.0 * <$t as Fl>::eps()), &format!("adapt-dynamic=static:{}:{}", mname, <$t as Fl>::TAG), || format!("{} -> {}: dynamic {:?} static {:?}", iname, oname, da, sa));
+    }
     // there and back returns the original colour (linear, so a handful of colours settles the matrix product; C14_White decides ‖A'A − I‖ <= 1e-6)
-    let tol_rt = if T::TAG == "f32" { 2e-5 } else { 2e-6 };
+    let tol_rt = if <$t as Fl>::TAG == "f32" { 2e-5 } else { 2e-6 };
     for _ in 0..4 {
         let x = [rng.range(0.0, 1.2), rng.range(0.0, 1.2), rng.range(0.0, 1.2)];
-        let xt: [T; 3] = arr_of(x);
-        let y: Xyz<O, T> = fwd.convert(from_array::<Xyz<I, T>>(xt));
-        let z: [T; 3] = into_array(back.convert(y));
+        let xt: [$t; 3] = arr_of(x);
+        let y: Xyz<$o, $t> = fwd.convert(from_array::<Xyz<$i, $t>>(xt));
+        let z: [$t; 3] = into_array(back.convert(y));
         let e = (0..3).map(|k| (z[k].to64() - xt[k].to64()).abs()).fold(0.0, f64::max);
-        out.maxi(&format!("adapt-roundtrip-err:{}", T::TAG), e);
-        out.check(e <= tol_rt, &format!("adapt-roundtrip:{}:{}", mname, T::TAG), || format!("{} -> {} -> {}: {:?} came back as {:?}", iname, oname, iname, xt, z));
+        out.maxi(&format!("adapt-roundtrip-err:{}", <$t as Fl>::TAG), e);
+        out.check(e <= tol_rt, &format!("adapt-roundtrip:{}:{}", mname, <$t as Fl>::TAG), || format!("{} -> {} -> {}: {:?} came back as {:?}", iname, oname, iname, xt, z));
     }
     out.count("cls:adapt-pair");
-}
+    }
+    one($out, $rng, $iname, $oname, $mname);
+}} }
 
 macro_rules! adapt_case { ( ($out:ident, $rng:ident), $i:ident, $o:ident ) => {{
-    adapt_one::<f32, $i, $o, Bradford>($out, $rng, stringify!($i), stringify!($o), "Bradford"); adapt_one::<f64, $i, $o, Bradford>($out, $rng, stringify!($i), stringify!($o), "Bradford");
-    adapt_one::<f32, $i, $o, VonKries>($out, $rng, stringify!($i), stringify!($o), "VonKries"); adapt_one::<f64, $i, $o, VonKries>($out, $rng, stringify!($i), stringify!($o), "VonKries");
-    adapt_one::<f32, $i, $o, UnitMatrix>($out, $rng, stringify!($i), stringify!($o), "UnitMatrix"); adapt_one::<f64, $i, $o, UnitMatrix>($out, $rng, stringify!($i), stringify!($o), "UnitMatrix");
+    adapt_one!(f32, $i, $o, Bradford, $out, $rng, stringify!($i), stringify!($o), "Bradford"); adapt_one!(f64, $i, $o, Bradford, $out, $rng, stringify!($i), stringify!($o), "Bradford");
+    adapt_one!(f32, $i, $o, VonKries, $out, $rng, stringify!($i), stringify!($o), "VonKries"); adapt_one!(f64, $i, $o, VonKries, $out, $rng, stringify!($i), stringify!($o), "VonKries");
+    adapt_one!(f32, $i, $o, UnitMatrix, $out, $rng, stringify!($i), stringify!($o), "UnitMatrix"); adapt_one!(f64, $i, $o, UnitMatrix, $out, $rng, stringify!($i), stringify!($o), "UnitMatrix");
 }} }
 
 /// one RGB standard: white -> its white point -> L* = 100, zero chroma; grays neutral; matrix pair inverse; hard-coded = derived from primaries
@@ -162,6 +172,36 @@ macro_rules! neutral_back {
     }
 }} }
 
+/// a gray given as `Luma<S>` (every luma standard, hence every reference white): its chromaticity in Yxy is the white point's, its XYZ is
+/// `Y·w`, CIELAB/CIELUV chroma are zero, through the direct edges (`Luma → Yxy` has its own shortcut) and through Xyz; and `Yxy::default()`
+/// (the black of the space) carries the white point's chromaticity
+macro_rules! luma_gray { ($out:expr, $grays:expr, $s:ty, $sn:expr, $t:ty) => {{
+    use palette::luma::{Luma, LumaStandard};
+    type W = <$s as LumaStandard>::WhitePoint;
+    let tag = format!("{}:{}", $sn, <$t as Fl>::TAG);
+    let w = wp_xyz::<W>(); let (wx, wy) = (w[0] / (w[0] + w[1] + w[2]), w[1] / (w[0] + w[1] + w[2]));
+    let tol = if <$t as Fl>::TAG == "f32" { 2e-6 } else { 1e-12 };
+    let d: [$t; 3] = into_array(Yxy::<W, $t>::default());
+    $out.check((d[0].to64() - wx).abs() <= tol && (d[1].to64() - wy).abs() <= tol && d[2].to64() == 0.0, &format!("yxy-default-is-white-chromaticity:{}", tag), || format!("Yxy::default() = {:?}, white point chromaticity ({}, {})", d, wx, wy));
+    for i in 0..=$grays {
+        let g = i as f64 / $grays as f64;
+        let l = Luma::<$s, $t>::new(<$t as Fl>::of(g));
+        let yxy: [$t; 3] = into_array(Yxy::<W, $t>::from_color_unclamped(l));
+        let xyz: [$t; 3] = into_array(Xyz::<W, $t>::from_color_unclamped(l));
+        let via: [$t; 3] = into_array(Yxy::<W, $t>::from_color_unclamped(from_array::<Xyz<W, $t>>(xyz)));
+        let lab: [$t; 3] = into_array(Lab::<W, $t>::from_color_unclamped(from_array::<Yxy<W, $t>>(yxy)));
+        let y = xyz[1].to64();
+        // x, y of a gray are the white point's for every luminance (black included: the shortcut keeps them, Xyz → Yxy falls back to them)
+        $out.check((yxy[0].to64() - wx).abs() <= tol && (yxy[1].to64() - wy).abs() <= tol, &format!("luma-gray-chromaticity:{}", tag), || format!("Luma {} -> Yxy {:?}, white point chromaticity ({}, {})", g, yxy, wx, wy));
+        // (black has no chromaticity: `Xyz(0,0,0) → Yxy` is (0, 0, 0) while the shortcut keeps the white point's x, y — C01Whole.luma_yxy_commutes is "off black")
+        if i > 0 { $out.check((via[0].to64() - wx).abs() <= 40.0 * tol && (via[1].to64() - wy).abs() <= 40.0 * tol && (via[2].to64() - yxy[2].to64()).abs() <= tol, &format!("luma-gray-yxy-via-xyz:{}", tag), || format!("Luma {} -> Yxy {:?} but via Xyz {:?}", g, yxy, via)); }
+        $out.check((0..3).all(|k| (xyz[k].to64() - y * w[k]).abs() <= tol * 2.0), &format!("luma-gray-is-scaled-white:{}", tag), || format!("Luma {} -> Xyz {:?}, white {:?}", g, xyz, w));
+        let tol_ab = if <$t as Fl>::TAG == "f32" { 4e-3 } else { 1e-9 };
+        $out.check(lab[1].to64().abs() <= tol_ab && lab[2].to64().abs() <= tol_ab, &format!("luma-gray-neutral-lab-via-yxy:{}", tag), || format!("Luma {} -> Yxy {:?} -> Lab {:?}", g, yxy, lab));
+        $out.count("cls:luma-gray");
+    }
+}} }
+
 pub fn run(tier: &str, seed: u64, dir: &str) {
     let mut out = Out::new("C14", dir);
     let mut rng = Rng::new(seed);
@@ -181,6 +221,13 @@ pub fn run(tier: &str, seed: u64, dir: &str) {
         let xf: [f32; 3] = arr_of(x);
         let a: [f32; 3] = into_array(Xyz::<D50, f32>::adapt_from_unclamped(from_array::<Xyz<D50, f32>>(xf)));
         out.check(a.iter().zip(&xf).all(|(p, q)| p.to_bits() == q.to_bits()), "adapt-identity:f32", || format!("{:?} -> {:?}", xf, a));
+    }
+    // grays as Luma under every luma standard (D65, D50, DCI white, and linear standards of arbitrary white points)
+    {
+        let lg = if tier == "thorough" { 4096 } else { 128 };
+        macro_rules! lboth { ($s:ty, $n:expr) => { luma_gray!(out, lg, $s, $n, f32); luma_gray!(out, lg, $s, $n, f64); } }
+        lboth!(encoding::Srgb, "Srgb"); lboth!(encoding::Rec709, "Rec709"); lboth!(encoding::Rec2020, "Rec2020"); lboth!(encoding::AdobeRgb, "AdobeRgb"); lboth!(encoding::DisplayP3, "DisplayP3");
+        lboth!(encoding::DciP3, "DciP3"); lboth!(encoding::ProPhotoRgb, "ProPhotoRgb"); lboth!(Linear<D50>, "Linear<D50>"); lboth!(Linear<A>, "Linear<A>"); lboth!(Linear<E>, "Linear<E>"); lboth!(Linear<F11>, "Linear<F11>");
     }
     // back from every colorimetric space to equal RGB components
     {
